@@ -23,7 +23,7 @@ TESTS = {
     "valid_range_test": dict(valid_span=[1.5, 8.5]),
 }
 MODULE = {"gross_range_test": "qartod", "spike_test": "qartod", "valid_range_test": "axds"}
-CTX_KINDS = ("none", "partial", "two", "partial_then_all")
+CTX_KINDS = ("none", "partial", "two", "partial_then_all", "empty", "empty_then_partial")
 CHARS = ("a", "Z", "0", "9", "_", ".", " ", "-", "é")
 
 META = dict(
@@ -72,6 +72,12 @@ def build_store(case):
         ctxs = [dict(streams=streams)]
     elif case["ctx"] == "partial":
         ctxs = [dict(start=S.T0 + q * S.DAY, end=S.T0 + 3 * q * S.DAY, streams=streams)]
+    elif case["ctx"] == "empty":
+        # a window that selects no row at all: the results exist, every row is "not evaluated"
+        ctxs = [dict(start=S.T0 + (n + 5) * S.DAY, end=None, streams=streams)]
+    elif case["ctx"] == "empty_then_partial":
+        first = {sid: {m: dict(list(t.items())[:1]) for m, t in mods.items()} for sid in case["streams"]}
+        ctxs = [dict(start=S.T0 + (n + 5) * S.DAY, end=S.T0 + (n + 9) * S.DAY, streams=streams), dict(start=S.T0 + q * S.DAY, end=S.T0 + 3 * q * S.DAY, streams=first)]
     elif case["ctx"] == "partial_then_all":
         # a windowed context followed by one that covers every row (which flag wins on the overlap is not judged here:
         # result columns are compared with the collected results; data and axes must equal the source on every row)
@@ -81,7 +87,15 @@ def build_store(case):
     cfg = Config(S.make_config(ctxs))
     store = PandasStore(PandasStream(df).run(cfg))
     masks = [S.ref_mask(tab["time"], c.get("start"), c.get("end")) for c in ctxs]
-    covered = [any(m[i] for m in masks) for i in range(n)]
+    # rows covered for EVERY configured result (the store may take a stream's data / the axes from any of its results)
+    per = {}
+    for c, m in zip(ctxs, masks):
+        for sid, mods_ in c["streams"].items():
+            for tests_ in mods_.values():
+                for t in tests_:
+                    cur = per.setdefault((sid, t), [False] * n)
+                    per[(sid, t)] = [a or b for a, b in zip(cur, m)]
+    covered = [all(v[i] for v in per.values()) for i in range(n)]
     return store, tab, srcs, covered
 
 
@@ -114,6 +128,12 @@ def check_case(case):
     vs = []
     nexec = 0
     collected = {(c.stream_id, c.test): alpha.flags_of(c.results)[0] for c in store.collected_results}
+    # (C06: a run collects exactly one result per configured (stream, module, test), also when its window selects no row;
+    #  a result that is configured but missing from the store cannot have its column)
+    for sid in case["streams"]:
+        for t in case["tests"]:
+            if (sid, t) not in collected:
+                vs.append(V(f"{PROP}|store|ctx={case['ctx']}|symptom=configured-result-has-no-column", f"the store holds no result (hence no column) for the configured ({sid}, {t})", sorted(map(list, ((s_, t_) for s_ in case["streams"] for t_ in case["tests"]))), sorted(map(list, collected))))
     if case.get("aggregate"):
         if case["saves"]:
             sv0 = case["saves"][0]  # a save BEFORE the aggregate must not freeze what later saves return
